@@ -20,7 +20,7 @@ RULE = ("seeded workloads: 2-3 publisher tasks (1-3 messages each, to existing a
         "drain after all tasks finished; one of 10 schedule strategies per run (random walk p in {.02,.1,.3,.6}, PCT d in 0..3, "
         "bursty). distinct_nontrivial = distinct hashes of the context-switch trace (task, file:line, next task) among runs with "
         ">= 1 pre-emption inside transport code."
-        " Further seeded dimensions: ?/[seq] patterns and channel names with tail relations, subscription closed early or by another task, transport close()/connect() by another sharer, quiescent per-pattern drain, callbacks that raise, a deep pre-published backlog (600-4500 messages).")
+        " Further seeded dimensions: ?/[seq] patterns and channel names with tail relations, subscription closed early or by another task, transport close()/connect() by another sharer, quiescent per-pattern drain, callbacks that raise, a deep pre-published backlog (600-4500 messages). Seventh round: an asyncio consumer cancelled after a seeded number of loop steps.")
 REAL_COMPONENTS = ["InMemorySemantivaTransport.publish/subscribe", "InMemorySubscription.__iter__/close", "transport.base.Message"]
 STUB_COMPONENTS = ["threading.Lock/Thread as seen by in_memory.py (SimLock/SimThread)", "publisher/subscriber client tasks",
                    "scheduler (decides every thread switch)"]
